@@ -34,3 +34,100 @@ func Utoa(mag uint64) []byte {
 	copy(out, b[i:])
 	return out
 }
+
+// IntTok describes what an RFC 8259 integer-only reader finds at the start
+// of buf (after optional whitespace).
+type IntTok struct {
+	OK       bool   // a valid integer literal or null was found
+	Null     bool   // the literal null
+	Neg      bool   // literal starts with '-'
+	Mag      uint64 // magnitude (valid when !Overflow)
+	Overflow bool   // magnitude does not fit in 64 bits
+	End      int    // offset just past the token
+	Start    int    // offset of the first token byte
+	// relaxation classes (what the token would be under a laxer grammar)
+	BareMinus   bool // '-' not followed by a digit
+	LeadingZero bool // '-' followed by 0 and more digits ("-01")
+	LaxEnd      int  // end of the maximal run [-]?[0-9]*
+}
+
+func isWS(c byte) bool { return c == ' ' || c == '\t' || c == '\n' || c == '\r' }
+
+// IntToken: ws* ( "null" | '-'? ( '0' | [1-9][0-9]* ) ). buf need not be
+// NUL-terminated; reading stops at len(buf).
+func IntToken(buf []byte) IntTok {
+	var r IntTok
+	i := 0
+	for i < len(buf) && isWS(buf[i]) {
+		i++
+	}
+	r.Start = i
+	if i+4 <= len(buf) && buf[i] == 'n' && buf[i+1] == 'u' && buf[i+2] == 'l' && buf[i+3] == 'l' {
+		r.OK, r.Null, r.End = true, true, i+4
+		return r
+	}
+	if i < len(buf) && buf[i] == '-' {
+		r.Neg = true
+		i++
+	}
+	// lax run of digits
+	j := i
+	for j < len(buf) && buf[j] >= '0' && buf[j] <= '9' {
+		j++
+	}
+	r.LaxEnd = j
+	if j == i {
+		r.BareMinus = r.Neg
+		return r
+	}
+	if buf[i] == '0' {
+		r.OK, r.End = true, i+1
+		r.LeadingZero = r.Neg && j > i+1
+		return r
+	}
+	var mag uint64
+	for k := i; k < j; k++ {
+		d := uint64(buf[k] - '0')
+		// mag*10+d > 2^64-1  (2^64-1 = 1844674407370955161*10 + 5)
+		if mag > 1844674407370955161 || (mag == 1844674407370955161 && d > 5) {
+			r.Overflow = true
+			mag = 0
+		}
+		if !r.Overflow {
+			mag = mag*10 + d
+		}
+	}
+	r.OK, r.End, r.Mag = true, j, mag
+	return r
+}
+
+// FitsInt reports whether the token value fits a signed integer of the given
+// bit size and returns it.
+func (r IntTok) FitsInt(bits uint) (int64, bool) {
+	if r.Overflow {
+		return 0, false
+	}
+	limit := uint64(1) << (bits - 1)
+	if r.Neg {
+		if r.Mag > limit {
+			return 0, false
+		}
+		return -int64(r.Mag), true
+	}
+	if r.Mag >= limit {
+		return 0, false
+	}
+	return int64(r.Mag), true
+}
+
+// FitsUint: same for unsigned (a '-' never fits, except that is a syntax
+// matter for the caller).
+func (r IntTok) FitsUint(bits uint) (uint64, bool) {
+	if r.Overflow || r.Neg {
+		return 0, false
+	}
+	if bits < 64 && r.Mag >= uint64(1)<<bits {
+		return 0, false
+	}
+	return r.Mag, true
+}
